@@ -418,9 +418,33 @@ def quoting_cases():
     return [make_case(specs, t) for specs, t in out]
 
 
+SYNTAX_VALUES = [
+    # plain values that look like rules-file / expression syntax: comment markers, separators, brackets, quotes,
+    # key-like prefixes, assignment, expression text (the reader must take a property value verbatim)
+    'Unit #4', 'Kids #2', '#work', 'a # b', 'x  #', '#', 'No. 5 ; misc', 'Food // Drink', 'A: B', 'key: value', ': lead',
+    'a = b', 'x=1', '[Bracket]', 'In [brackets] here', '"Quoted"', "'single'", 'back\\slash', 'trail\\', '100%', 'a & b',
+    'match: regex("X")', 'category: Other', 'tags: x', 'true', 'amount > 5', 'R&D {team}', 'semi;colon', 'pipe!bang', '-- dash',
+    '/* c */', '<tag>', 'tab\there', 'dollar $5', 'at @home', 'star *', 'q?', 'tilde ~', 'caret ^', 'back`tick', 'under_score',
+]
+
+
+def syntax_value_cases():
+    """Deterministic corpus: each value as category, as subcategory, as a tag and as merchant of its own rule (one
+    file per value, four rules), plus all of them as categories in one file; every rule gets a matching transaction."""
+    out = []
+    for v in SYNTAX_VALUES:
+        tagv = v if not any(ch in v for ch in ',()') and not (v.startswith('{') and v.endswith('}')) else 'plain'
+        specs = [mk('CATX', 'McCat', v, 'Sub'), mk('SUBX', 'McSub', 'Cat', v), mk('TAGX', 'McTag', 'Cat', 'Sub', tags=['travel', tagv]),
+                 mk('MERX', v, 'Cat', 'Sub', tags=['m']), mk('ONLYTAGX', 'McOnly', '', '', tags=[tagv])]
+        out.append((specs, [tx('CATX 1'), tx('SUBX 1'), tx('TAGX 1'), tx('MERX 1'), tx('ONLYTAGX 1'), tx('CATX TAGX ONLYTAGX'), tx('NONE')]))
+    some = SYNTAX_VALUES[::3]
+    out.append(([mk(f'P{i}X', f'M{i}', v, v, tags=['t']) for i, v in enumerate(some)], [tx(f'P{i}X 1') for i in range(len(some))]))
+    return [make_case(specs, t) for specs, t in out]
+
+
 def gen_cases(seed, n, today):
     rnd = random.Random(seed)
-    cases = interaction_cases() + separator_cases() + escape_pair_cases() + quoting_cases()
+    cases = interaction_cases() + separator_cases() + escape_pair_cases() + quoting_cases() + syntax_value_cases()
     # boundary stream: every hazard pattern alone, every safe pattern alone with one modifier of each kind
     for hz, pool in (('backslash', HAZ_BACKSLASH), ('quote', HAZ_QUOTE), ('paren', HAZ_PAREN), ('case', HAZ_CASE)):
         for pat, descs in pool:
@@ -1112,7 +1136,7 @@ def main(tier):
         broken.append({'kind': 'hygiene', 'detail': res['hygiene']})
 
     today = datetime.date.today()
-    n = 170 if tier == 'quick' else 4000
+    n = 120 if tier == 'quick' else 4000
     wit = witness_cases()
     cases = wit + gen_cases(run.seed, n, today)
     out = run_files(cases, timeout=3000)
